@@ -19,7 +19,7 @@ import (
 
 func init() {
 	sw.SetWriteConflict(sumdb.ErrWriteConflict)
-	pbt.Describe("world = two logs A = P||X and B = P||Y with a common prefix of |P| >= 0 records that differ from record |P| on (same module@version with other hashes, or other modules), both signed with the REAL server key (a forking server), tile height H in {1,2,3,4}. history = 1-6 lookups; each step names the log and size the server presents at that moment, optional client restarts, warm or cold cache (prefilled from A or from B), an initial stored head on A, on B or empty, and optionally a concurrent writer that puts another signed head (same log larger, or the other log) into the shared configuration right before the client's compare-and-swap; plus 0-2 per-response substitutions (the same tile / record / head as the OTHER log would serve it). Oracle (the harness knows which (size, hash) belong to A, B or both): every successful WriteConfig stores a validly signed head whose tree contains the replaced head's tree as a prefix in ground truth, sizes never decrease; all heads ever stored lie on one log; for every successful lookup the head carried by the delivered response is a prefix of the final stored head and the returned lines are genuine lines of a log that contains that head; every lookup whose error is sumdb.ErrSecurity comes with a SecurityError callback whose message contains, after undoing the tab indentation, two validly signed heads verbatim that are mutually inconsistent in ground truth; a SecurityError is never raised when every head involved lies on one log; with a single log nothing fails. concurrent-forks: 1-2 clients sharing configuration and cache x 2-3 goroutines x 1-2 lookups, each record request assigned a fork and a head size, tiles served from the fork whose issued head they fit, interleaving of all external operations and yield points chosen by the harness scheduler from generated decisions; same audit of stored-head moves, lines and security reports, and pairwise consistency of the initially stored head, every stored head and the response heads of successful lookups of clients none of whose lookups failed (non-trivial there: contended schedule with heads of both forks beyond the prefix in flight in one client). Non-trivial: a head of the other log beyond the common prefix was delivered (by the server, the cache, the configuration or the concurrent writer) while the client held a head beyond the prefix. Distinct by JSON rendering.",
+	pbt.Describe("world = two logs A = P||X and B = P||Y with a common prefix of |P| >= 0 records that differ from record |P| on (same module@version with other hashes, or other modules), both signed with the REAL server key (a forking server), tile height H in {1,2,3,4}. history = 1-6 lookups; each step names the log and size the server presents at that moment, optional client restarts, warm or cold cache (prefilled from A or from B), an initial stored head on A, on B or empty, and optionally a concurrent writer that puts another signed head (same log larger, or the other log) into the shared configuration right before the client's compare-and-swap; plus 0-2 per-response substitutions (the same tile / record / head as the OTHER log would serve it). Oracle (the harness knows which (size, hash) belong to A, B or both): every successful WriteConfig stores a validly signed head whose tree contains the replaced head's tree as a prefix in ground truth, sizes never decrease; all heads ever stored lie on one log; for every successful lookup the head carried by the delivered response is a prefix of the final stored head and the returned lines are genuine lines of a log that contains that head; every lookup whose error is sumdb.ErrSecurity comes with a SecurityError callback whose message contains, after undoing the tab indentation, two validly signed heads verbatim that are mutually inconsistent in ground truth; a SecurityError is never raised when every head involved lies on one log; with a single log nothing fails. concurrent-forks: 1-2 clients sharing configuration and cache x 2-3 goroutines x 1-2 lookups, each record request assigned a fork and a head size, tiles served from the fork whose issued head they fit, interleaving of all external operations and yield points chosen by the harness scheduler from generated decisions; same audit of stored-head moves, lines and security reports, and pairwise consistency of the initially stored head, every stored head and the response heads of successful lookups of clients none of whose lookups failed (non-trivial there: contended schedule with heads of both forks beyond the prefix in flight in one client). Non-trivial: a head of the other log beyond the common prefix was delivered (by the server, the cache, the configuration or the concurrent writer) while the client held a head beyond the prefix. Distinct by JSON rendering. Sequential sub, clause 2c: when a lookup returns successfully the head its record response carried is contained in the head stored at that moment, unless a configuration operation of that client instance failed, met the concurrent writer or was answered with substituted bytes.",
 		"Ed25519 and SHA-256 are sound", "the forking server owns the real key; consistency is judged by the harness's own Merkle model", "liveness is not checked")
 }
 
@@ -205,6 +205,7 @@ type result struct {
 	lines []string
 	err   error
 	mark  int // number of events before this lookup started
+	cfg   []byte // the stored head when the lookup returned
 }
 
 func logOf(w *sw.World, b bool) *sw.Log {
@@ -252,7 +253,7 @@ func run(c c13Case, w *sw.World, faults []sw.Fault, req map[string][]string) (*s
 		}
 		mark := len(ops.Snapshot())
 		lines, err := cl.Lookup(mv.Path, mv.Version)
-		out = append(out, result{i, mv.Path, mv.Version, lines, err, mark})
+		out = append(out, result{i, mv.Path, mv.Version, lines, err, mark, append([]byte(nil), ops.Config[w.Name+"/latest"]...)})
 	}
 	return ops, out
 }
@@ -421,6 +422,50 @@ func check(c c13Case) pbt.Result {
 		}
 		if !okLines {
 			r.Fail = pbt.Failf("lines-from-other-timeline", "lookup %d of %s@%s returned %q, which are not genuine lines on the timeline of the heads this client accepted", x.step, x.path, x.vers, x.lines)
+			return r
+		}
+	}
+
+	// 2c. An accepted head is a stored head. When a lookup returns successfully, the head its record response
+	// carried is contained in the stored head: whichever lookup brought that head to the client wrote it back
+	// before doing anything else with it, so that a client started later from the same configuration cannot
+	// be shown a tree that forks below it. (Not asserted for a client instance one of whose configuration
+	// operations failed, met a concurrent writer, or was answered with substituted bytes: there the lookup
+	// that met the problem failed, and a later one may ride on the head that could not be stored.)
+	instStart := 0
+	for xi, x := range res {
+		if c.Steps[x.step].Restart {
+			instStart = x.mark
+		}
+		if x.err != nil {
+			continue
+		}
+		end := len(events)
+		if xi+1 < len(res) {
+			end = res[xi+1].mark
+		}
+		exempt := false
+		for _, e := range events[instStart:end] {
+			if e.Op == "writeconfig" && e.Err || e.Op == "config" && (e.Err || e.Faulted != "") {
+				exempt = true
+			}
+		}
+		var raw []byte
+		for _, e := range events[x.mark:end] {
+			if (e.Op == "remote" || e.Op == "cache") && strings.HasSuffix(e.Name, sw.LookupPath(sw.ModVer{Path: x.path, Version: x.vers})) && !e.Err {
+				if _, _, hd, ok := sw.ParseLookupFile(e.Delivered); ok {
+					raw = hd
+				}
+			}
+		}
+		h, ok1 := openHead(w, raw)
+		cfg, ok2 := openHead(w, x.cfg)
+		if exempt || len(raw) == 0 || !ok1 || !ok2 {
+			continue
+		}
+		r.Classes = append(r.Classes, "accepted head compared with the stored head")
+		if len(x.cfg) == 0 || !prefixOf(h, cfg) {
+			r.Fail = pbt.Failf("accepted-head-not-stored", "lookup %d of %s@%s succeeded on a head of size %d (in A:%v B:%v), and when it returned the stored head was of size %d (in A:%v B:%v), which does not contain it; no configuration operation of this client had failed", x.step, x.path, x.vers, h.n, h.inA, h.inB, cfg.n, cfg.inA, cfg.inB)
 			return r
 		}
 	}
